@@ -22,14 +22,16 @@ usage: tools/harmless.py [name ...] [--mode verify|translate|proof|check] [--see
              cached per distinct generated text.
   check      what a user would see: `VERIF_REPO=<tree> PYTHONPATH=<tree> ./check <id> --tier quick` for every listed
              check and seed (default mode).
+  In proof and check mode the listed checks are extended by every check whose theorems are stated over a generated file that
+  the rewrite changes (Lean import graph of its audit): a rewrite of one family's source can move another family's table.
 
 Prints a table (one row per rewrite), writes the JSON given by --out (default harmless/results_<mode>.json) and
 exits 1 if any check alarmed (or, in verify mode, if a rewrite is not behaviour-preserving).  A rewrite whose json says
 "expected": "residual" (with "residual_why") is one the framework cannot relate to the original without guessing: it is run
 and reported like the others, but its alarm is by design and does not count towards the exit status.
 
-  report     tools/harmless.py --mode report --before A.json[,B.json…] --after C.json[,D.json…]  prints the before/after
-             table (markdown) from result files of proof / check runs.
+  report     tools/harmless.py --mode report --cols "before=A.json,B.json;after=C.json"  prints the before/after table
+             (markdown, one column per label) from result files of proof / check runs.
 """
 from __future__ import annotations
 
@@ -180,6 +182,33 @@ def uses_of(check):
     return re.findall(r'"([^"]+)"', txt)
 
 
+_closure = {}
+
+
+def generated_deps(check):
+    """names of the Generated modules the audit of `check` depends on (Lean import graph)"""
+    if check not in _closure:
+        seen = set()
+
+        def walk(mod):
+            if mod in seen:
+                return
+            seen.add(mod)
+            p = LEAN / (mod.replace(".", "/") + ".lean")
+            if p.exists():
+                for m in re.findall(r"^import\s+(SparseV\.\S+)", p.read_text(), re.M):
+                    walk(m)
+        walk(f"SparseV.Audit.{check}")
+        _closure[check] = {m.split(".")[-1] + ".lean" for m in seen if ".Generated." in m}
+    return _closure[check]
+
+
+def affected_checks(changed):
+    """every registered check whose theorems are stated over a generated file the rewrite changed"""
+    all_checks = sorted(p.stem for p in (LEAN / "SparseV" / "Audit").glob("C??.lean"))
+    return [c for c in all_checks if generated_deps(c) & set(changed)]
+
+
 def lean_tree_hash():
     h = hashlib.sha256()
     for p in sorted(LEAN.rglob("*.lean")):
@@ -265,47 +294,50 @@ def summarise(rec):
     return worst, sorted(set(where))
 
 
-def report(before, after):
-    def load(paths):
+def report(cols):
+    """cols: [(label, [result files])]; prints one markdown row per rewrite and the totals per column"""
+    data = []
+    for label, paths in cols:
         res, modes = {}, set()
         for p in paths:
             if p:
                 j = json.loads(Path(p).read_text())
                 modes.add(j.get("mode"))
                 res.update(j["results"])
-        return res, "/".join(sorted(m for m in modes if m))
-    b, bm = load(before)
-    a, am = load(after)
-    names = sorted(set(a) | set(b))
-    print(f"| rewrite | function | what | checks | before ({bm}) | after ({am}) |")
-    print("|---|---|---|---|---|---|")
-    tot = {"before": {}, "after": {}}
+        data.append((f"{label} ({'/'.join(sorted(m for m in modes if m))})", res))
+    names = sorted(set().union(*[set(r) for _, r in data]))
+    print("| rewrite | function | what | checks run | " + " | ".join(l for l, _ in data) + " |")
+    print("|---|---|---|---|" + "---|" * len(data))
+    tot = [dict() for _ in data]
     for n in names:
         m = meta(n) if (HARM / f"{n}.json").exists() else {}
-        cells = []
-        for key, res in (("before", b), ("after", a)):
+        cells, checks = [], set(m.get("checks", []))
+        for i, (_, res) in enumerate(data):
             if n not in res:
                 cells.append("—")
                 continue
+            checks |= set(res[n].get("checks", {}))
             st, where = summarise(res[n])
-            tot[key][st] = tot[key].get(st, 0) + 1
-            cells.append("survives" if st == "OK" else f"{st.lower()} ({', '.join(where)})")
-        if m.get("expected") == "residual":
-            cells[1] += " — residual by design"
-        print(f"| {n} | `{m.get('function', '?')}` | {m.get('what', '')} | {', '.join(m.get('checks', []))} | {cells[0]} | {cells[1]} |")
-    for key in ("before", "after"):
-        print(f"\n{key}: " + ", ".join(f"{v} {'survive' if k == 'OK' else k.lower()}" for k, v in sorted(tot[key].items())) + f" (of {sum(tot[key].values())})")
+            key = "residual (by design)" if (st != "OK" and m.get("expected") == "residual") else st
+            tot[i][key] = tot[i].get(key, 0) + 1
+            cells.append("survives" if st == "OK" else f"{st.lower()} ({', '.join(where)})" + (" — residual by design" if m.get("expected") == "residual" else ""))
+        print(f"| {n} | `{m.get('function', '?')}` | {m.get('what', '')} | {', '.join(sorted(checks))} | " + " | ".join(cells) + " |")
+    print()
+    for (label, _), t in zip(data, tot):
+        print(f"* {label}: " + ", ".join(f"{v} {'survive' if k == 'OK' else k.lower()}" for k, v in sorted(t.items())) + f" (of {sum(t.values())})")
     return 0
 
 
 # ------------------------------------------------------------------------------------------------ main
 
 def main():
+    import signal
+    # a terminated run must still remove its scratch worktrees and put the unchanged tree's generated files back
+    signal.signal(signal.SIGTERM, lambda *_: sys.exit(143))
     ap = argparse.ArgumentParser()
     ap.add_argument("names", nargs="*")
     ap.add_argument("--mode", default="check", choices=["verify", "translate", "proof", "check", "report"])
-    ap.add_argument("--before", default="")
-    ap.add_argument("--after", default="")
+    ap.add_argument("--cols", default="", help='report mode: "label=file[,file…];label=file…"')
     ap.add_argument("--checks", default=None, help="override the checks listed in the json files")
     ap.add_argument("--seeds", default="0")
     ap.add_argument("--tier", default="quick")
@@ -314,7 +346,7 @@ def main():
     ap.add_argument("--keep-going", action="store_true", default=True)
     a = ap.parse_args()
     if a.mode == "report":
-        return report(a.before.split(","), a.after.split(","))
+        return report([(c.split("=", 1)[0], c.split("=", 1)[1].split(",")) for c in a.cols.split(";") if c])
     names = corpus(a.names)
     out_path = Path(a.out) if a.out else HARM / f"results_{a.mode}.json"
     results = {}
@@ -371,6 +403,9 @@ def main():
                     cur = None
                     for n in order:
                         checks = a.checks.split(",") if a.checks else meta(n)["checks"]
+                        # … and every other check whose theorems are stated over a generated file this rewrite changed
+                        # (a rewrite of one family's source can move another family's table)
+                        checks = checks + [c for c in affected_checks(tr[n]["changed"]) if c not in checks]
                         rec = {"generated": {k: tr[n][k] for k in ("refused", "changed", "hash")}, "checks": {}}
                         for c in checks:
                             # the refusals are part of the key: a table extractor that refuses falls back to a default value, so a
@@ -403,6 +438,12 @@ def main():
             try:
                 for n in names:
                     checks = a.checks.split(",") if a.checks else meta(n)["checks"]
+                    with Tree(n, ".t") as wt:
+                        d = scratch / n
+                        translate(wt, d)
+                        texts = gen_texts(d)
+                    changed = sorted(k for k in set(base) | set(texts) if base.get(k) != texts.get(k))
+                    checks = checks + [c for c in affected_checks(changed) if c not in checks]
                     for c in checks:
                         for f in [ROOT / "evidence" / f"{c}.json"] + sorted((ROOT / "replays" / c).glob("*")):
                             if f.is_file() and f not in saved:
